@@ -51,6 +51,10 @@ def augment(lines, impl_out):
             prev_cubic = _cubic.pre_token(o)
             res.append(l)
             continue
+        if l.startswith("sock "):
+            from gens import sock as _sock
+            res.append(_sock.augment_line(l, o))
+            continue
         if l.startswith("vs poll") and "cc=[" in o:
             cc = o.split("cc=[", 1)[1].split("]", 1)[0]
             vals = [x.split("=")[1] for x in cc.split(",") if x.startswith(("window=", "sshthresh=", "smss="))]
@@ -68,10 +72,11 @@ def scale(tier, quick, thorough):
     return thorough if tier == "thorough" else quick
 
 
-from gens import cubic, pure, wire, mtu, txring, rx, segs, vsock, vsock_props  # noqa: E402,F401  (registers generators / oracles)
+from gens import cubic, sock, pure, wire, mtu, txring, rx, segs, vsock, vsock_props  # noqa: E402,F401  (registers generators / oracles)
 
 pure.register(sys.modules[__name__])
 cubic.register(sys.modules[__name__])
+sock.register(sys.modules[__name__])
 wire.register(sys.modules[__name__])
 mtu.register(sys.modules[__name__])
 txring.register(sys.modules[__name__])
